@@ -1,6 +1,7 @@
 package props
 
 import (
+	"errors"
 	crand "crypto/rand"
 	"encoding/json"
 	"fmt"
@@ -373,12 +374,17 @@ type faultReader struct {
 	n       int
 	target  int
 	pattern byte
+	fail    bool // the target-th read fails (no bytes, an error) instead of returning the pattern
 	hit     bool
 }
 
 func (f *faultReader) Read(p []byte) (int, error) {
 	f.n++
 	if f.n == f.target {
+		if f.fail {
+			f.hit = true
+			return 0, errors.New("injected: transient failure of the random source")
+		}
 		for i := range p {
 			p[i] = f.pattern
 		}
@@ -394,6 +400,23 @@ var extremeMu sync.Mutex
 // the process-wide crypto/rand.Reader is answered with the pattern. f receives a description and a function telling whether the
 // faulted read was reached. Must not be used while other goroutines of the process need genuine randomness semantics decided
 // by an oracle (callers run it in a single-threaded section).
+// failedDraws runs f once for every read number 1..maxReads: during the call that one read of the process-wide
+// crypto/rand.Reader fails with an error (a transient fault of the random source); all other reads are genuine. Same
+// single-threaded restriction as extremeDraws.
+func failedDraws(maxReads int, f func(desc string, hit func() bool)) {
+	extremeMu.Lock()
+	defer extremeMu.Unlock()
+	verifhooks.FastRandomBigInt(pow2(64))
+	orig := crand.Reader
+	defer func() { crand.Reader = orig }()
+	for target := 1; target <= maxReads; target++ {
+		fr := &faultReader{inner: orig, target: target, fail: true}
+		crand.Reader = fr
+		f(fmt.Sprintf("random read #%d fails", target), func() bool { return fr.hit })
+		crand.Reader = orig
+	}
+}
+
 func extremeDraws(maxReads int, f func(desc string, hit func() bool)) {
 	extremeMu.Lock()
 	defer extremeMu.Unlock()
